@@ -17,6 +17,7 @@ package dsim
 import (
 	"context"
 	"encoding/json"
+	"errors"
 	"fmt"
 	"math/rand"
 	"sort"
@@ -236,6 +237,11 @@ type Operator struct {
 	call       *Call
 	outbox     []*BroadcastEvent
 	q          *queueState
+	// fault injection: the next FailPublish broadcasts of this operator fail (the message does not leave the node and
+	// Network.Broadcast returns an error, as a pubsub publish can)
+	FailPublish      int
+	PublishesFailed  int
+	FailPublishTypes map[string]bool // nil = any kind (Classify), else only these kinds
 }
 
 // CapTimer captures the armed (height, round): virtual time.
@@ -260,6 +266,12 @@ func (n *CapNet) Broadcast(m *spectypes.SSVMessage) error {
 	cp := &spectypes.SSVMessage{MsgType: m.MsgType, MsgID: m.MsgID, Data: append([]byte{}, m.Data...)}
 	ev := &BroadcastEvent{Op: op.ID, Kind: Classify(op.Share, cp), Role: cp.MsgID.GetRoleType(), Msg: cp, Tick: op.cl.tick()}
 	op.mu.Lock()
+	if op.FailPublish > 0 && (op.FailPublishTypes == nil || op.FailPublishTypes[ev.Kind]) {
+		op.FailPublish--
+		op.PublishesFailed++
+		op.mu.Unlock()
+		return errors.New("verif: injected publish failure")
+	}
 	ev.Idx = len(op.Broadcasts)
 	ev.Action = op.cur
 	op.Broadcasts = append(op.Broadcasts, ev)
